@@ -16,7 +16,7 @@
 (*         real code must satisfy), including the a-priori floating-point guard.        *)
 (*                                                                                      *)
 (* Matrices are sequences of rows, 1-based; machine matrices hold Rat pairs <<n, d>>.   *)
-EXTENDS Rat, Sequences, FiniteSets
+EXTENDS Rat, Sequences, FiniteSets, TLC
 
 (* ===================================================================================== *)
 (* Part 1: definitions                                                                   *)
@@ -54,18 +54,24 @@ Cramer(M, b, n) == CramerWith(M, b, n, LeibnizDet(M, n))
 (* ---- fraction-free (Bareiss) determinant of an integer matrix: every intermediate   *)
 (*      entry is a minor of M, so no number exceeds Hadamard's bound squared ---- *)
 ExactDiv(x, s) == IF s > 0 THEN x \div s ELSE (-x) \div (-s)         \* s divides x
+\* the matrix is kept as ONE flat function F over 1..n*n, forced with TLCEval at every step: TLC keeps [x \in S |-> e] as an
+\* unevaluated lambda, and without forcing every entry of step k would re-evaluate four entries of step k-1 (4^n work)
 RECURSIVE BareissFrom(_, _, _, _, _)
-BareissFrom(M, k, n, prev, sign) ==
-  IF k = n THEN sign * M[n][n]
-  ELSE LET cand == {r \in k..n : M[r][k] # 0}
-       IN IF cand = {} THEN 0
-          ELSE LET r == CHOOSE q \in cand : \A q2 \in cand : q <= q2
-                   W == SwapF(M, k, r)
-                   Nx == [i \in 1..n |-> [j \in 1..n |->
-                            IF i > k /\ j > k THEN ExactDiv(W[k][k] * W[i][j] - W[i][k] * W[k][j], prev)
-                            ELSE W[i][j]]]
-               IN BareissFrom(Nx, k + 1, n, W[k][k], IF r = k THEN sign ELSE -sign)
-Bareiss(M, n) == IF n = 0 THEN 1 ELSE BareissFrom(M, 1, n, 1, 1)
+BareissFrom(F, k, n, prev, sign) ==
+  LET At2(G, i, j) == G[(i - 1) * n + j]
+  IN IF k = n THEN sign * At2(F, n, n)
+     ELSE LET cand == {r \in k..n : At2(F, r, k) # 0}
+          IN IF cand = {} THEN 0
+             ELSE LET r == CHOOSE q \in cand : \A q2 \in cand : q <= q2
+                      W == TLCEval([m \in 1..(n * n) |->
+                              LET i == ((m - 1) \div n) + 1  j == ((m - 1) % n) + 1
+                              IN IF i = k THEN At2(F, r, j) ELSE IF i = r THEN At2(F, k, j) ELSE F[m]])
+                      piv == At2(W, k, k)
+                      Nx == TLCEval([m \in 1..(n * n) |->
+                              LET i == ((m - 1) \div n) + 1  j == ((m - 1) % n) + 1
+                              IN IF i > k /\ j > k THEN ExactDiv(piv * W[m] - At2(W, i, k) * At2(W, k, j), prev) ELSE W[m]])
+                  IN BareissFrom(Nx, k + 1, n, piv, IF r = k THEN sign ELSE -sign)
+Bareiss(M, n) == IF n = 0 THEN 1 ELSE BareissFrom(TLCEval([m \in 1..(n * n) |-> M[((m - 1) \div n) + 1][((m - 1) % n) + 1]]), 1, n, 1, 1)
 
 (* ---- exact rational products ---- *)
 RECURSIVE RDotRange(_, _, _, _)
